@@ -80,6 +80,38 @@ def name_hash_iterates_bytes(ctx, mpq, pid):
                     ctx.ok(R, {"fn": p_, "iterates": it[:60]})
 
 
+def name_hash_whole_name(ctx, mpq, pid):
+    """... and the *whole* name: in the functions that take the name as text (hash_string, the Jenkins wrappers, het_hash) nothing
+    bounds how much of it reaches the kernel — no take / zip / truncate / min / step_by / skip on the name, its length or its
+    byte iterator (the reference hashes are defined on strings of any length; a fixed 260-byte buffer silently collides long names)"""
+    R = ctx.rule("%s.name-hashes-consume-the-whole-name" % pid, "in hash_string / the Jenkins name-hash wrappers: no length-limiting operation (take, take_while, zip, truncate, min, step_by, skip, split_at) is applied to the name, its length or its bytes", floor=2)
+    LIM = ("take", "take_while", "zip", "truncate", "min", "step_by", "skip", "skip_while", "split_at", "nth", "map_while")
+    for f in mpq.fn_list:
+        if f.kind == "Closure" or not f.hir or "::tests::" in f.path:
+            continue
+        p_ = norm(f.path)
+        if not re.search(r"crypto::hash::hash_string$|crypto::jenkins::\w+$|crypto::hash::\w*jenkins\w*$|crypto::hash::het_hash$", p_):
+            continue
+        ins = f.d.get("inputs") or []
+        pnames = [b for p__ in f.hir["params"] for b in hirq.pat_binds(p__)]
+        text = [nm for nm, ti in zip(pnames, ins) if re.search(r"^&(\'\w+ )?str$|^&(\'\w+ )?\[u8\]$", mpq.ty(ti) or "") and re.search(r"name|file|key|path|s$|str", nm)]
+        text = [nm for nm, ti in zip(pnames, ins) if (mpq.ty(ti) or "").endswith("str")]
+        if not text:
+            continue
+        ctx.saw_fn(f)
+        hit = None
+        for x in hirq.walk(f.hir["body"]):
+            if x.get("k") == "mcall" and x["m"] in LIM:
+                parts = [x["recv"]] + list(x.get("args") or [])
+                if any(y.get("k") == "path" and (y.get("res") or {}).get("local") in text for p0 in parts for y in hirq.walk(p0)):
+                    hit = hit or x
+        if hit:
+            ctx.bad(R, "%s|name-bounded" % p_.split("::")[-1], "%s:%d" % (f.file, hit.get("ln") or f.lo), "`%s`" % hirq.render(hit)[:80],
+                    "only a prefix (or a subset) of the name's bytes reaches the hash kernel: the value differs from the reference hash for names beyond that bound, and such names collide")
+        else:
+            ctx.ok(R, {"fn": p_, "name_params": text})
+
+
 def run(ctx):
     prog = ctx.prog
     mpq = prog.crate("wow_mpq")
@@ -115,6 +147,7 @@ def run(ctx):
             ctx.ok(R_tab, {"table": path, "entries": len(got), "first": hex(got[0])})
 
     name_hash_iterates_bytes(ctx, mpq, "C04")
+    name_hash_whole_name(ctx, mpq, "C04")
     # hash_string
     hf = mpq.fns.get(P + "hash::hash_string")
     if hf is None:
@@ -240,6 +273,65 @@ def run(ctx):
                 ctx.bad(R_wrap, "%s|shape" % path.split("::")[-1], mpq.fns[path].where, "; ".join(probs), "encrypt and decrypt wrappers would disagree on byte lengths not divisible by four")
             else:
                 ctx.ok(R_wrap, {"wrapper": path, "kernel_calls": v[0], "tail_calls": v[1]})
+
+    # ... and the tail key is evaluated, not matched: for byte lengths 1..=23 the key handed to the kernel for the len % 4 tail is
+    # key + len / 4 (the dword count) in every wrapper — `chunks` may be a dword count in one wrapper and a byte slice in its twin
+    R_tk = ctx.rule("C04.tail-key-is-key-plus-dword-count", "in every byte-level wrapper the key of the tail kernel call evaluates to key + len/4 for len in 1..=23 (len % 4 != 0)", floor=3)
+    from .c10 import _ival as _iv, _NoEval as _NEv
+    for path, kern in wrappers:
+        f = mpq.fns.get(path)
+        if f is None or not f.hir:
+            continue
+        body = f.hir["body"]
+        pn = [b for p_ in f.hir["params"] for b in hirq.pat_binds(p_)]
+        if len(pn) < 2:
+            continue
+        dname, kname = pn[0], pn[1]
+        lets = {l["pat"]["name"]: l["init"] for l in hirq.find(body, "let") if l["pat"].get("k") == "bind" and l.get("init") is not None}
+        split = {}
+        for l in hirq.find(body, "let"):
+            if l["pat"].get("k") == "tuple" and l.get("init") is not None:
+                i0 = hirq.strip(l["init"])
+                if i0.get("k") == "mcall" and i0["m"] in ("split_at_mut", "split_at") and i0.get("args"):
+                    nm = [x.get("name") for x in l["pat"].get("subs") or []]
+                    if len(nm) == 2:
+                        split[nm[0]] = ("head", i0["args"][0])
+                        split[nm[1]] = ("tail", i0["args"][0])
+        tails_ = [c for c in hirq.calls(body) if re.search(r"::(encrypt_block|decrypt_block|decrypt_dword|encrypt_dword)$", c.get("fn") or "")
+                  and hirq.render(hirq.strip(c["args"][1])) != kname]
+        if not tails_:
+            ctx.bad(R_tk, "%s|no-tail-call" % path.split("::")[-1], f.where, "no kernel call with a derived key (the len %% 4 tail is not enciphered by this wrapper)", "wrappers disagree on the tail")
+            continue
+        K = 1000
+        bad = None
+        try:
+            for c in tails_:
+                for L in range(1, 24):
+                    if L % 4 == 0:
+                        continue
+
+                    def leaf(r_, L=L):
+                        m_ = re.fullmatch(r"(\w+)\.len\(\)", r_)
+                        if not m_:
+                            return None
+                        if m_.group(1) == dname:
+                            return L
+                        if m_.group(1) in split:
+                            kind, at = split[m_.group(1)]
+                            v_ = _iv(at, {kname: K, "__leaf__": leaf, "__ty__": mpq.ty}, lets)
+                            return v_ if kind == "head" else L - v_
+                        return None
+                    got = _iv(c["args"][1], {kname: K, "__leaf__": leaf, "__ty__": mpq.ty}, lets)
+                    if got != K + L // 4 and bad is None:
+                        bad = (L, got - K, L // 4, hirq.render(c["args"][1])[:70])
+        except _NEv as e:
+            ctx.bad(R_tk, "%s|not-evaluable" % path.split("::")[-1], f.where, "tail key not evaluable: %s" % e, "shape changed")
+            continue
+        if bad:
+            ctx.bad(R_tk, "%s|tail-key" % path.split("::")[-1], f.where, "for a %d-byte buffer the tail is processed with key + %d (`%s`); its twin wrappers use key + %d, the number of whole dwords" % (bad[0], bad[1], bad[3], bad[2]),
+                    "the last len %% 4 bytes written by one wrapper are not recovered by the other: encrypt and decrypt are no longer mutually inverse for lengths not divisible by four")
+        else:
+            ctx.ok(R_tk, {"wrapper": path.split("::")[-1], "tail_key": hirq.render(tails_[0]["args"][1])[:60], "lengths": 17})
 
     # early-return guards of the wrappers agree for every (length, key) class
     # the HET name-hash pair: (masked 64-bit hash, its top byte) for every table width — evaluated on the function's own arithmetic
